@@ -525,9 +525,23 @@ def r9_graph_queries_live(cx):
         cx.ok(m.tree.body[0], "no graph query of dr.py keeps its answers in a module-level table (%d graph writers: %s)" % (len(writers), ", ".join(sorted(w.name for w in writers))),
               construct="no memo in dr.py")
         return
+    allf = [f for f in ast.walk(m.tree) if isinstance(f, FUNC_TYPES)]
     for fn, tbl, a in memos:
-        missing = [w.name for w in writers if not any(isinstance(c, ast.Call) and isinstance(c.func, ast.Attribute) and U(c.func.value) == tbl and c.func.attr == "clear" for c in ast.walk(w))
-                   and not any(isinstance(x, ast.Assign) and any(U(t) == tbl for t in x.targets) for x in ast.walk(w))]
+        def _clears(w, depth=0):
+            if any(isinstance(c, ast.Call) and isinstance(c.func, ast.Attribute) and U(c.func.value) == tbl and c.func.attr == "clear" for c in ast.walk(w)) \
+                    or any(isinstance(x, ast.Assign) and any(U(t) == tbl for t in x.targets) for x in ast.walk(w)):
+                return True
+            if depth >= 2:
+                return False
+            # unconditionally calls a function of this module that clears it (add_dependency -> add_dependent -> clear)
+            for st in w.body:
+                if isinstance(st, ast.Expr) and isinstance(st.value, ast.Call):
+                    nm = call_name(st.value) or call_attr(st.value)
+                    nm = (nm or "").split(".")[-1]
+                    if any(g.name == nm and g is not w and _clears(g, depth + 1) for g in allf):
+                        return True
+            return False
+        missing = [w.name for w in writers if not _clears(w)]
         cx.require(not missing, a, "the memo %s of %s is cleared by every writer of the dependency graph" % (tbl, fn.name),
                    construct="%s; not cleared in: %s" % (short(a, 50), ", ".join(sorted(set(missing)))) if missing else short(a, 60))
 
